@@ -42,6 +42,7 @@ type Engine struct {
 	workers    int
 	typeNames  map[string]types.Type
 	skipped    []string
+	boundedEv  []string
 }
 
 var posRe = regexp.MustCompile(` @ \d+:\d+`)
@@ -441,6 +442,8 @@ func (e *Engine) verifyFunction(fn *ssa.Function, fc *FuncContract) (res *FuncRe
 				}
 			}
 		}
+		// vacuity guard: this return path must be reachable under the assumptions made so far
+		fv.obls = append(fv.obls, &Obligation{Func: fc.Key, Name: fmt.Sprintf("cover:path%d", fv.paths), Kind: "pathcover", Hyps: append([]string(nil), st.pc...), Goal: "false", Expect: "sat", Src: "return path reachable"})
 		for _, ga := range fc.GhostExit {
 			fv.ghostAssign(st, ga, env)
 		}
